@@ -20,6 +20,8 @@ RULE = ("generated projects in both table styles with 1-6 dependencies: legacy t
         "every bound x an environment sample (13 interpreters x 3 platforms x sets of the project's extras). Non-trivial = the "
         "declaration carries at least one condition (python/platform/markers/optional) ; distinct = distinct declaration.")
 ASSUMPTIONS = [
+    "the Lean model of Factory.create_dependency / Metadata.from_package / format_python_constraint (Model/Dep02.lean over Model/Dep.lean) is tied to "
+    "the real pipeline on every generated declaration: Requires-Dist text, selection, marker tree, in_extras, truth vector, Requires-Python, Provides-Extra",
     "reference = packaging 26.3 Requirement/Marker/SpecifierSet in a separate process, with the token reading of in/not in and set-valued extras (as C06)",
     "the declared version constraint and python range are interpreted by poetry-core's own constraint semantics (tied to PEP 440 by C04) on candidates that are regular for every bound",
     "tomli and the schema validation are trusted (only declarations accepted by Factory.validate are judged)",
@@ -134,6 +136,7 @@ def run_projects(ctx: core.Ctx, projects: list[dict[str, Any]], stream: str) -> 
                 poetry = Factory().create_poetry(root)
                 meta = Metadata.from_package(poetry.package)
                 built.append((pr, meta))
+                pr["_package"] = poetry.package
             except Exception as ex:  # noqa: BLE001
                 ctx.case("p:" + pr["toml"], nontrivial=False)
                 ctx.count("project:rejected:" + type(ex).__name__)
@@ -147,6 +150,7 @@ def run_projects(ctx: core.Ctx, projects: list[dict[str, Any]], stream: str) -> 
             for d in pr["deps"]:
                 if "markers" in d:
                     mreqs.append({"op": "mtok", "s": d["markers"], "envs": envs})
+        dis = model_correspondence(ctx, built, envs_by, stream)
         mres = iter(MC.ref_batch(mreqs)) if mreqs else iter([])
         reqs = []
         plan = []
@@ -213,7 +217,76 @@ def run_projects(ctx: core.Ctx, projects: list[dict[str, Any]], stream: str) -> 
                 ctx.violate(f"provides-extra:{pr['extras']}", f"Provides-Extra {meta.provides_extra} differs from declared {want_extras}", {"toml": pr["toml"]})
     finally:
         shutil.rmtree(tmp, ignore_errors=True)
-    ctx.stream(stream, len(projects), 0)
+    ctx.stream(stream, len(projects), dis if built else 0)
+
+
+def opt(x: Any) -> str:
+    return "-" if x is None else "=" + str(x)
+
+
+def model_correspondence(ctx: core.Ctx, built: list[tuple[dict[str, Any], Any]], envs_by: list[list[dict[str, Any]]], stream: str) -> int:
+    """Lean model (ops dep02 / pyfmt / provx) vs the real Factory -> Metadata.from_package pipeline, declaration by declaration"""
+    from packaging.utils import canonicalize_name
+    lines, plan = [], []
+    for (pr, meta), envs in zip(built, envs_by):
+        eenc = [G.enc_env(e) for e in envs[:10]]
+        pkg = pr.get("_package")
+        for d in pr["deps"]:
+            in_ex = [e for e in pr["extras"] if e in d.get("in_extras", [])]
+            lines.append(core.line("dep02", d["name"], d["version"], opt(d.get("python")), opt(d.get("platform")), opt(d.get("markers")),
+                                   ",".join(d.get("extras", [])), "1" if d.get("optional") else "0", ",".join(in_ex), *eenc))
+            real = next((x for x in (pkg.requires if pkg is not None else []) if x.name == canonicalize_name(d["name"])), None)
+            plan.append(("dep", pr, d, real, envs[:10], meta))
+        if "python" in pr:
+            lines.append(core.line("pyfmt", pr["python"]))
+            plan.append(("py", pr, None, None, None, meta))
+        lines.append(core.line("provx", *pr["extras"]))
+        plan.append(("px", pr, None, None, None, meta))
+    if not lines:
+        return 0
+    out = core.run_driver(lines)
+    dis = 0
+    for (kind, pr, d, real, envs, meta), mo in zip(plan, out):
+        if mo[:2] == ["err", "unmodelled"]:
+            ctx.count("model:unmodelled")
+            continue
+        if kind == "py":
+            io = ["ok", opt(meta.requires_python)]
+            if io != mo[:2]:
+                dis += 1
+                ctx.disagree(stream + ":requires-python", pr["python"], io, mo)
+            ctx.count("model:requires-python")
+        elif kind == "px":
+            io = ["ok", ",".join(meta.provides_extra)]
+            if io != mo[:2]:
+                dis += 1
+                ctx.disagree(stream + ":provides-extra", pr["extras"], io, mo)
+        else:
+            if real is None:
+                ctx.count("model:no-real-object")
+                continue
+            sel = (not real.is_optional() or bool(real.in_extras)) and not real.marker.is_empty()
+            try:
+                text = "=" + real.to_pep_508()
+            except Exception as e:  # noqa: BLE001
+                text = "!" + MC.errname(e)
+            io = ["ok", "1" if sel else "0", text, MC.mdump(real.marker), ",".join(real.in_extras), "1" if real.is_optional() else "0", MC.truth(real.marker, envs)]
+            listed = [ln for ln in meta.requires_dist if ln == text[1:]]
+            if mo[0] != "ok":
+                dis += 1
+                ctx.disagree(stream + ":model-raises", d, io[:3], mo)
+                continue
+            ib, mb = MC.split_bits(io[6]), MC.split_bits(mo[6])
+            bits_ok = len(ib) == len(mb) and all(y == "u" or x == y for x, y in zip(ib, mb))
+            if io[:6] != mo[:6] or not bits_ok:
+                dis += 1
+                k = next((i for i in range(6) if io[i] != mo[i]), 6)
+                ctx.disagree(stream + ":" + ["status", "selected", "text", "marker", "in_extras", "optional", "truth"][k], d, io, mo)
+            elif sel != bool(listed):
+                dis += 1
+                ctx.disagree(stream + ":line-listed", d, [sel, meta.requires_dist], mo[:3])
+            ctx.count("model:declarations")
+    return dis
 
 
 def short_single(r: str) -> bool:
@@ -239,7 +312,8 @@ def gen_project(rnd: Any) -> dict[str, Any]:
     for d in deps:
         if "in_extras" in d:
             d["in_extras"] = [e for e in d["in_extras"] if e in used]
-    return {"deps": deps, "extras": used, "toml": legacy_pyproject(deps, used, rnd.choice([">=3.8", "^3.9", ">=3.7,<4", "*"]))}
+    py = rnd.choice([">=3.8", "^3.9", ">=3.7,<4", "*", "~2.7 || ^3.6", ">=3.6,!=3.7.*", "3.9", ">=2.7,!=3.0.*,!=3.1.*,!=3.2.*"])
+    return {"deps": deps, "extras": used, "python": py, "toml": legacy_pyproject(deps, used, py)}
 
 
 CORPUS_DEPS = [
@@ -252,7 +326,7 @@ CORPUS_DEPS = [
 
 
 def correspondence(ctx: core.Ctx) -> None:
-    corpus = [{"deps": [d], "extras": d.get("in_extras", []), "toml": legacy_pyproject([d], d.get("in_extras", []), ">=3.6")} for d in CORPUS_DEPS]
+    corpus = [{"deps": [d], "extras": d.get("in_extras", []), "python": ">=3.6", "toml": legacy_pyproject([d], d.get("in_extras", []), ">=3.6")} for d in CORPUS_DEPS]
     run_projects(ctx, corpus, "corpus")
     projects = [gen_project(ctx.rng) for _ in range(ctx.budget(220, 6000))]
     for k in range(0, len(projects), 250):
